@@ -130,6 +130,8 @@ type runner struct {
 	rng            *vkit.Rng
 	pendingInitial []s2.CellID
 	perKind        map[string]int
+	descRuns       int // optimized runs whose initial cells include a proper descendant of an index cell
+	descRunsBig    int // ... of these, the index cell holds >= 10 edges (it is enqueued, not processed directly)
 }
 
 // violate reports at most a few violations per kind so that one class does not hide the others.
@@ -165,6 +167,7 @@ func (r *runner) runPairWith(g *geom, idx *s2.ShapeIndex, t *tgt, nopts int, wan
 	}
 	c.Class(fmt.Sprintf("target:%s/%s", dir, t.kind))
 	var tcases []string
+	icells := s2.VerifC08IndexCells(idx)
 	for qi, q := range qs {
 		query := newQuery(idx, t.far, q)
 		fresh := true
@@ -177,6 +180,30 @@ func (r *runner) runPairWith(g *geom, idx *s2.ShapeIndex, t *tgt, nopts int, wan
 			path = "optimized"
 		}
 		c.Class("path:" + path)
+		if st.UsedOptimized && len(st.InitialCells) > 0 {
+			// did initQueue meet an initial cell that is a proper descendant of an index cell?
+			desc, big := false, false
+			for _, id := range st.InitialCells {
+				for _, ic := range icells {
+					if ic.ID != id && ic.ID.Contains(id) {
+						desc = true
+						if len(ic.Edges) >= 10 {
+							big = true
+						}
+					}
+				}
+			}
+			if desc {
+				r.descRuns++
+				c.Class("initQueue:initial-cell-inside-index-cell")
+			}
+			if big {
+				r.descRunsBig++
+				c.Class("initQueue:initial-cell-inside-index-cell(>=10 edges, enqueued)")
+			}
+			c.Extra["initqueue_indexed_descendant_runs"] = r.descRuns
+			c.Extra["initqueue_indexed_descendant_runs_enqueued"] = r.descRunsBig
+		}
 		key := fmt.Sprintf("%s|%s|%s", g.desc, t.desc, q)
 		c.Eval(key, st.UsedOptimized && len(el) > 0)
 		if qi == 0 {
@@ -474,6 +501,7 @@ func run(c *vkit.Collector, rng *vkit.Rng, budget int) {
 	r := &runner{c: c, rng: rng}
 	r.fixed()
 	r.approxStream(budget)
+	r.bigCellStream(budget)
 	kinds := []string{"point", "edge", "cell", "index"}
 	nIdx := 60 * budget
 	for i := 0; i < nIdx; i++ {
@@ -548,6 +576,97 @@ func (r *runner) approxStream(budget int) {
 						qs = append(qs, qopts{k: []int{1, 3, 0}[rng.Intn(3)], maxErr: e, interiors: true, hasLimit: true, limit: lim})
 					}
 				}
+				return qs
+			})
+		}
+	}
+}
+
+// closedRing is a closed polyline through the vertices of a regular n-gon.
+func closedRing(c s2.Point, radius float64, n int) s2.Shape {
+	vs := s2.RegularLoop(c, s1.Angle(radius), n).Vertices()
+	pl := make(s2.Polyline, 0, n+1)
+	pl = append(pl, vs...)
+	pl = append(pl, vs[0])
+	return &pl
+}
+
+// bigCellStream: few, large index cells (a cube face or a level-1 cell holding exactly ten long
+// edges, so the index does not subdivide it and the cell is enqueued, not processed directly)
+// queried with small distance limits from everywhere inside the big cells: the initial cells of
+// the search disc are then proper descendants of an index cell (the Indexed branch of initQueue).
+func (r *runner) bigCellStream(budget int) {
+	rng := r.rng
+	deg := math.Pi / 180
+	for i := 0; i < 12*budget; i++ {
+		g := &geom{desc: "bigcells", radius: math.Pi, center: faceCenters[0]}
+		nf := 4 + rng.Intn(3)
+		start := rng.Intn(6)
+		var anchors []s2.Point // vertices of the geometry, to aim targets at
+		for f := 0; f < nf; f++ {
+			fc := faceCenters[(start+f)%6]
+			switch rng.Intn(3) {
+			case 0: // a decagon around the face centre
+				c := pointIn(rng, fc, 5*deg)
+				g.add(closedRing(c, rng.Range(15, 33)*deg, 10))
+			case 1: // two pentagons on the face
+				g.add(closedRing(pointIn(rng, fc, 12*deg), rng.Range(8, 20)*deg, 5))
+				g.add(closedRing(pointIn(rng, fc, 12*deg), rng.Range(3, 9)*deg, 5))
+			default: // a decagon inside one level-1 child, a stray edge elsewhere on the face
+				child := s2.CellFromCellID(s2.VerifC08LeafCellID(fc).Parent(0).Children()[rng.Intn(4)])
+				g.add(closedRing(child.Center(), rng.Range(4, 9)*deg, 10))
+				other := s2.CellFromCellID(s2.VerifC08LeafCellID(fc).Parent(0).Children()[rng.Intn(4)]).Center()
+				pl := s2.Polyline{other, pointIn(rng, other, 3*deg)}
+				g.add(&pl)
+			}
+		}
+		for _, sh := range g.shapes {
+			for k := 0; k < sh.NumEdges(); k++ {
+				anchors = append(anchors, sh.Edge(k).V0)
+			}
+		}
+		g.desc = fmt.Sprintf("bigcells/faces=%d/n=%d", nf, g.nedges)
+		idx := g.index()
+		big := 0
+		for _, ic := range s2.VerifC08IndexCells(idx) {
+			if len(ic.Edges) >= 10 && ic.ID.Level() <= 2 {
+				big++
+			}
+		}
+		r.c.Class(fmt.Sprintf("stream:bigcells(index cells of level<=2 with >=10 edges: %s)", bucket(big)))
+		for j := 0; j < 7; j++ {
+			kind := []string{"point", "point", "edge", "cell"}[rng.Intn(4)]
+			var pos s2.Point
+			switch rng.Intn(4) {
+			case 0: // anywhere on a used face, including its far corners
+				pos = pointIn(rng, faceCenters[(start+rng.Intn(nf))%6], 0.95)
+			case 1: // a corner region of a face cell
+				fcell := s2.CellFromCellID(s2.VerifC08LeafCellID(faceCenters[(start+rng.Intn(nf))%6]).Parent(0))
+				pos = pointIn(rng, fcell.Vertex(rng.Intn(4)), 6*deg)
+			default: // near the geometry, within a few degrees
+				pos = pointIn(rng, anchors[rng.Intn(len(anchors))], rng.Range(0.01, 4)*deg)
+			}
+			t := &tgt{kind: kind, far: false}
+			switch kind {
+			case "point":
+				t.p = pos
+				t.desc = fmt.Sprintf("point%v", pos)
+			case "edge":
+				t.e = s2.Edge{V0: pos, V1: pointIn(rng, pos, rng.Range(0.01, 2)*deg)}
+				t.desc = fmt.Sprintf("edge%v-%v", t.e.V0, t.e.V1)
+			default:
+				id := s2.VerifC08LeafCellID(pos).Parent([]int{6, 9, 12, 18}[rng.Intn(4)])
+				t.cell = s2.CellFromCellID(id)
+				t.desc = "cell " + id.ToToken()
+			}
+			r.runPairWith(g, idx, t, 0, j%2 == 0, func(all []cand) []qopts {
+				var qs []qopts
+				for _, d := range []float64{0.01, 0.1, 0.5, 1, 3} {
+					qs = append(qs, qopts{k: []int{0, 2, 5}[rng.Intn(3)], hasLimit: true, limit: chordOf(d * deg), interiors: rng.Bool()})
+				}
+				qs = append(qs, qopts{k: 0, hasLimit: true, limit: chordOf(rng.Range(0.01, 3) * deg), interiors: true},
+					qopts{k: 1, hasLimit: true, limit: chordOf(rng.Range(0.1, 3) * deg), interiors: true},
+					qopts{k: 5, hasLimit: true, limit: chordOf(rng.Range(0.01, 3) * deg), maxErr: chordOf(0.2 * deg), interiors: true})
 				return qs
 			})
 		}
